@@ -133,3 +133,37 @@ package store
 //@   observe um := call Unmarshal
 //@   observe fp := call FromProto
 //@   ensures [reads-the-record] err == nil ==> ge.count == 1 && ge.res1 == nil && ge.arg2.string == dskey(KeyState()) && um.count == 1 && um.arg0 == ge.res0 && fp.count == 1 && fp.res0 == nil && fp.arg1 == um.arg1.val
+
+// The getters read exactly the records SaveBlockData writes: the header record of the height, the
+// data record of the height, the height recorded for the hash.
+//@ func (s *DefaultStore) GetHeader(ctx, height) (header, err)
+//@   property C14 C01 C02 C04 C05
+//@   requires [wiring] s.db != nil
+//@   observe ge := call Get
+//@   observe um := call Unmarshal
+//@   ensures [non-nil] err == nil ==> header != nil
+//@   ensures [reads-the-header-record] err == nil ==> ge.count == 1 && ge.res1 == nil && ge.arg2.string == dskey(KeyHdr(height)) && um.count == 1 && um.arg0 == ge.res0
+//@   ensures [missing] !s.db.kvHas[dskey(KeyHdr(height))] ==> err != nil
+
+//@ func (s *DefaultStore) GetBlockData(ctx, height) (header, data, err)
+//@   property C14 C01 C02 C04 C05
+//@   requires [wiring] s.db != nil
+//@   observe gh := call GetHeader
+//@   observe ge := call Get
+//@   ensures [reads-both-records] err == nil ==> header != nil && data != nil && gh.count == 1 && gh.res1 == nil && gh.arg2 == height && header == gh.res0
+//@                       && ge.count == 1 && ge.res1 == nil && ge.arg2.string == dskey(KeyData(height))
+//@   ensures [nil-on-error] err != nil ==> header == nil && data == nil
+
+//@ func (s *DefaultStore) GetBlockByHash(ctx, hash) (header, data, err)
+//@   property C14
+//@   requires [wiring] s.db != nil
+//@   observe gh := call getHeightByHash
+//@   observe gb := call GetBlockData
+//@   ensures [by-hash-then-height] err == nil ==> gh.count == 1 && gh.res1 == nil && val(gh.arg2) == val(hash) && gb.count == 1 && gb.arg2 == gh.res0 && header == gb.res0 && data == gb.res1
+
+//@ func (s *DefaultStore) GetSignatureByHash(ctx, hash) (sig, err)
+//@   property C14
+//@   requires [wiring] s.db != nil
+//@   observe gh := call getHeightByHash
+//@   observe gs := call GetSignature
+//@   ensures [by-hash-then-height] err == nil ==> gh.count == 1 && gh.res1 == nil && val(gh.arg2) == val(hash) && gs.count == 1 && gs.arg2 == gh.res0 && sig == gs.res0
